@@ -2,6 +2,7 @@
 import random
 
 from ..harness import Scenario, gen_cfg, ref_alpha
+from ..riverlike import RealScenario, gen_real_cfg
 from ..probes import InjectedFault
 from ..explref import PfiRef, Mismatch, compare
 
@@ -11,12 +12,15 @@ N_CFG = {"quick": 900, "thorough": 5000}
 
 def run_config(run, cfg, seed, tag):
     try:
-        sc = Scenario(cfg, seed)
+        sc = (RealScenario if cfg.get("real") else Scenario)(cfg, seed)
     except Exception as ex:
         run.other_error(f"C15:construct:{type(ex).__name__}")
         return
     run.count("configs")
     ref = PfiRef(sc.names, cfg["dyn"], ref_alpha(cfg), sc.model, sc.loss)
+    if cfg.get("real"):
+        run.count("real-model-configs")
+        ref.unique = False
     for t in range(cfg["steps"]):
         kw = sc.call_kwargs()
         replay = {"cfg": cfg, "seed": seed, "step": t, "kwargs": kw}
@@ -34,7 +38,7 @@ def run_config(run, cfg, seed, tag):
         if t == 0:
             run.ok(kind="first-call")
             stored = [e for e in log if e[0] == "storage.update"]
-            if [e for e in log if e[0] in ("model", "loss")] or ret != {} or (sc.storage is not None and len(stored) != 1):
+            if [e for e in log if e[0] in ("model", "loss")] or ret != {} or (sc.storage is not None and len(stored) != (0 if kw.get("update_storage") is False else 1)):
                 run.violation("first-observation", f"{tag}: first call must only seed the storage; log={log!r} ret={ret!r}", replay)
             continue
         n_used = kw.get("n_inner_samples") or cfg["n_inner"]
@@ -47,7 +51,7 @@ def run_config(run, cfg, seed, tag):
         obs = sc.snapshot()
         scale = max(1.0, sc.loss.max_abs)
         bad = list(compare(obs, exp, cfg["exact"], scale))
-        run.ok(len(exp), kind="exact" if cfg["exact"] else "float")
+        run.ok(len(exp), kind="real-model" if cfg.get("real") else "exact" if cfg["exact"] else "float")
         for key, o, e in bad:
             run.violation("observable:" + key, f"{tag} step {t}: {key} observed {o!r} expected {e!r}", replay)
         if not (ret == obs["importance"]):
@@ -79,7 +83,11 @@ def main(run):
                 "non-trivial = call with >= 2 distinct non-zero contributions, distinct by (config, step)")
     run.assumptions = ["model and loss are deterministic pure functions", "float mode uses continuous losses only"]
     run.require("ixai/explainer/pfi.py:IncrementalPFI.explain_one")
+    run.require_count("real-model-configs")
     rnd = random.Random(run.shard_seed)
     for i in range(N_CFG[run.tier]):
         cfg = gen_cfg(rnd, "pfi", exact=(i % 3 != 2))
         run_config(run, cfg, rnd.randrange(2 ** 31), f"s{run.shard[0]}c{i}")
+        if i % 12 == 11:       # a real river model that keeps learning, river streams, river metrics, the library's wrappers
+            rcfg = gen_real_cfg(rnd, "pfi", need_decode=True)
+            run_config(run, rcfg, rnd.randrange(2 ** 31), f"s{run.shard[0]}c{i}real")
